@@ -78,7 +78,7 @@ func lstrs(xs []string) string {
 
 // calls made in a block, as selector texts, in source order (not descending into nested ifs' conditions twice)
 // calls that neither change nor test the machine's state: logging, copying, length queries
-var noise = map[string]bool{"len": true, "cap": true, "make": true, "copy": true, "recover": true, "fmt.Println": true,
+var noise = map[string]bool{"len": true, "cap": true, "make": true, "copy": true, "append": true, "[]byte": true, "recover": true, "fmt.Println": true,
 	"fmt.Printf": true, "fmt.Errorf": true, "log.Println": true, "this.conf.Log.Error": true, "this.conf.Log.Debug": true,
 	"this.buffer.Len": true, "this.buffer.Bytes": true, "dateutil.Now": true}
 
